@@ -63,6 +63,9 @@ def bias(draw, vs, idx, kinds=None, total_forces=True):
         b["gf"] = draw(st.sampled_from([1, 1, 2]))
     if k == "abf":
         b["full"] = draw(st.integers(1, 5))
+    if k == "alb":
+        # a small range is outgrown within a few updates (the range then expands, which is part of the state)
+        b["fr"] = draw(st.sampled_from([3.0, 0.05, 0.002, 0.002]))
     return b
 
 
@@ -123,7 +126,9 @@ def render_bias(b, vs):
         # ALB updates its coupling from <x>/centre - 1: a zero centre is rejected by the library
         cz = " ".join(c if float(c) != 0.0 else fmt(0.5 * vs[i]["grid"]["width"]) for c, i in zip(centers(b, vs).split(), b["vars"]))
         L = ["alb {", "  name " + b["name"], "  colvars " + names, "  centers " + cz, "  updateFrequency %d" % (2 * max(2, b["N"] // 2)),
-             "  forceRange 3.0"]
+             "  forceRange " + fmt(b.get("fr", 3.0))]
+        if b.get("fr", 3.0) < 1.0:
+            L.append("  hardForceRange off")      # the range grows when the coupling outgrows it
     elif k == "histogram":
         L = ["histogram {", "  name " + b["name"], "  colvars " + names]
     L.append("}")
